@@ -87,3 +87,111 @@ Qed.
 
 Lemma remove1_not_In : forall x l, ~ In x (remove1 x l).
 Proof. intros x l H. apply remove1_In in H. destruct H; congruence. Qed.
+
+(* ---- iwulist_find_first / iwulist_remove_first_by ---- *)
+Lemma filter_all_true : forall A (f : A -> bool) l, (forall x, In x l -> f x = true) -> filter f l = l.
+Proof.
+  induction l as [|a l IH]; simpl; intros H; [reflexivity|]. rewrite (H a (or_introl eq_refl)). f_equal. apply IH. auto.
+Qed.
+
+Lemma remove_first_sub : forall x y l, In y (remove_first x l) -> In y l.
+Proof.
+  intros x y l. induction l as [|a l IH]; simpl; intros H; [exact H|].
+  destruct (Nat.eqb_spec a x); [right; exact H|]. destruct H as [H|H]; [left; exact H|right; apply IH; exact H].
+Qed.
+
+Lemma remove_first_keeps : forall x y l, In y l -> y <> x -> In y (remove_first x l).
+Proof.
+  intros x y l. induction l as [|a l IH]; simpl; intros H N; [exact H|].
+  destruct (Nat.eqb_spec a x) as [->|Na].
+  - destruct H as [H|H]; [congruence|exact H].
+  - destruct H as [H|H]; [left; exact H|right; apply IH; assumption].
+Qed.
+
+Lemma remove_first_notin : forall x l, ~ In x l -> remove_first x l = l.
+Proof.
+  intros x l. induction l as [|a l IH]; simpl; intros H; [reflexivity|].
+  destruct (Nat.eqb_spec a x) as [->|Na]; [exfalso; apply H; left; reflexivity|].
+  f_equal. apply IH. intros Hin. apply H. right. exact Hin.
+Qed.
+
+Lemma remove_first_NoDup : forall x l, NoDup l -> NoDup (remove_first x l) /\ ~ In x (remove_first x l).
+Proof.
+  intros x l. induction l as [|a l IH]; simpl; intros ND; [split; [constructor|intros []]|].
+  inversion ND as [|? ? Ha ND']; subst. destruct (Nat.eqb_spec a x) as [->|Na]; [split; assumption|].
+  destruct (IH ND') as [I1 I2]. split.
+  - constructor; [|exact I1]. intros Hin. apply Ha. eapply remove_first_sub; exact Hin.
+  - intros [H|H]; [congruence|exact (I2 H)].
+Qed.
+
+Lemma remove_first_app_notin : forall x a b, ~ In x a -> remove_first x (a ++ b) = a ++ remove_first x b.
+Proof.
+  intros x a b. induction a as [|y a IH]; simpl; intros H; [reflexivity|].
+  destruct (Nat.eqb_spec y x) as [->|Ny]; [exfalso; apply H; left; reflexivity|].
+  f_equal. apply IH. intros Hin. apply H. right. exact Hin.
+Qed.
+
+Lemma remove_first_remove1 : forall x l, NoDup l -> remove_first x l = remove1 x l.
+Proof.
+  intros x l. induction l as [|a l IH]; simpl; intros ND; [reflexivity|].
+  inversion ND as [|? ? Ha ND']; subst. destruct (Nat.eqb_spec a x) as [->|Na]; simpl.
+  - symmetry. unfold remove1. apply filter_all_true. intros y Hy. destruct (Nat.eqb_spec y x); [subst; contradiction|reflexivity].
+  - f_equal. apply IH. exact ND'.
+Qed.
+
+Lemma remove_first_filter : forall (f : nat -> bool) x l, NoDup l ->
+  filter f (remove_first x l) = filter (fun y => f y && negb (Nat.eqb y x)) l.
+Proof.
+  intros f x l. induction l as [|a l IH]; simpl; intros ND; [reflexivity|].
+  inversion ND as [|? ? Ha ND']; subst. destruct (Nat.eqb_spec a x) as [->|Na]; simpl.
+  - rewrite andb_false_r. apply filter_ext_in. intros y Hy. destruct (Nat.eqb_spec y x); [subst; contradiction|].
+    rewrite andb_true_r. reflexivity.
+  - rewrite andb_true_r. destruct (f a); [f_equal|]; apply IH; assumption.
+Qed.
+
+Lemma find_first_none : forall x l, find_first x l = None <-> ~ In x l.
+Proof.
+  intros x l. induction l as [|a l IH]; simpl; [split; [intros _ []|reflexivity]|].
+  destruct (Nat.eqb_spec a x) as [->|Na].
+  - split; [discriminate|]. intros H. exfalso. apply H. left. reflexivity.
+  - destruct (find_first x l) as [i|]; split; try discriminate.
+    + intros H. exfalso. assert (X : ~ In x l) by (intros Hin; apply H; right; exact Hin). apply IH in X. discriminate X.
+    + intros _ [H|H]; [congruence|]. apply (proj1 IH eq_refl H).
+    + reflexivity.
+Qed.
+
+Lemma find_first_some : forall x l i, find_first x l = Some i -> nth_error l i = Some x /\ i < length l.
+Proof.
+  intros x l. induction l as [|a l IH]; simpl; intros i H; [discriminate|].
+  destruct (Nat.eqb_spec a x) as [->|Na].
+  - inversion H; subst. simpl. split; [reflexivity|lia].
+  - destruct (find_first x l) as [j|]; [|discriminate]. inversion H; subst. destruct (IH j eq_refl) as [A B].
+    simpl. split; [exact A|lia].
+Qed.
+
+Lemma find_first_in : forall x l, In x l -> exists i, find_first x l = Some i.
+Proof.
+  intros x l H. destruct (find_first x l) as [i|] eqn:E; [exists i; reflexivity|].
+  apply find_first_none in E. contradiction.
+Qed.
+
+Lemma find_first_app_r : forall x a b, ~ In x a ->
+  find_first x (a ++ b) = match find_first x b with Some i => Some (length a + i) | None => None end.
+Proof.
+  intros x a b. induction a as [|y a IH]; simpl; intros H; [destruct (find_first x b); reflexivity|].
+  destruct (Nat.eqb_spec y x) as [->|Ny]; [exfalso; apply H; left; reflexivity|].
+  rewrite IH; [destruct (find_first x b); reflexivity|]. intros Hin. apply H. right. exact Hin.
+Qed.
+
+Lemma find_first_seq : forall x n rest, x < n -> find_first x (seq 0 n ++ rest) = Some x.
+Proof.
+  intros x n rest H.
+  assert (G : forall k m r, k <= x -> x < k + m -> find_first x (seq k m ++ r) = Some (x - k)).
+  { intros k m. revert k. induction m as [|m IH]; intros k r H1 H2; [lia|]. simpl.
+    destruct (Nat.eqb_spec k x) as [->|N]; [rewrite Nat.sub_diag; reflexivity|].
+    rewrite (IH (S k) r); [|lia|lia]. f_equal. lia. }
+  rewrite (G 0 n rest); [f_equal; lia|lia|lia].
+Qed.
+
+Lemma find_first_some_In : forall x l i, find_first x l = Some i -> In x l.
+Proof. intros x l i H. apply find_first_some in H. destruct H as [H _]. eapply nth_error_In; exact H. Qed.
